@@ -148,17 +148,28 @@ def getPortName_(n):
 def gather(run, designs, rng, cycles, limit):
     items = []
     seen = set()
-    for d in designs:
+    for k, d in enumerate(designs):
+        # every other design is simulated FIRST and its Verilog requested afterwards (validate, then generate): the text
+        # describes the design from power-up, whatever state the simulated objects are in when it is emitted
+        sim_first = k % 2 == 1
+        pre = steps = None
+        if sim_first:
+            try:
+                pre, steps = record(d, rng, cycles, limit)
+            except Exception as e:
+                run.cov['simulation_failed'] = run.cov.get('simulation_failed', 0) + 1
+                continue
         try:
             text = vdesigns.emit(d['top'])
         except Exception as e:
             run.cov['generation_refused'] = run.cov.get('generation_refused', 0) + 1
             continue
-        try:
-            pre, steps = record(d, rng, cycles, limit)
-        except Exception as e:
-            run.cov['simulation_failed'] = run.cov.get('simulation_failed', 0) + 1
-            continue
+        if not sim_first:
+            try:
+                pre, steps = record(d, rng, cycles, limit)
+            except Exception as e:
+                run.cov['simulation_failed'] = run.cov.get('simulation_failed', 0) + 1
+                continue
         run.count(len(steps) + 1)
         run.nontrivial(hash(text))
         items.append((d, text, pre, steps))
@@ -189,7 +200,7 @@ def check(run):
                 pass
     judge(run, gather(run, comps, rng, cycles, limit), 'comp')
     with quiet():
-        pairs = vdesigns.pair_designs(rng, npair)
+        pairs = vdesigns.pair_designs(rng, npair, seq_first=True)
     judge(run, gather(run, pairs, rng, cycles, limit), 'pair')
     run.assumptions += ['VerilogSem.tla is a transcription of IEEE 1364-2005 for the emitted subset (two-state; never-initialised storage '
                         'reads 0); no third-party Verilog simulator is available to cross-check it',
